@@ -137,6 +137,9 @@ def _strata():
     S.append(("skip_rms", {"dtype": "f32", "bias": "post", "rank2": True}, "bsd"))
     S.append(("skip_rms", {"dtype": "f32", "bias": "post", "d_mismatch": True}, "bsd"))
     S.append(("skip_rms", {"dtype": "f32", "bias": "none", "use_sum": False}, "bsd"))
+    S.append(("skip_layer_norm", {"dtype": "f32", "bias": "none", "eps": None, "small_var": True}, "bsd"))
+    S.append(("skip_layer_norm", {"dtype": "f32", "bias": "post", "eps": None, "small_var": True, "skip_first": True}, "bsd"))
+    S.append(("skip_layer_norm", {"dtype": "f32", "bias": "pre", "eps": 1e-3, "small_var": True}, "bsd"))
     S.append(("skip_layer_norm", {"dtype": "f32", "bias": "none", "rank2": True}, "bsd"))
     S.append(("skip_layer_norm", {"dtype": "f32", "bias": "none", "no_beta": True}, "bsd"))
     S.append(("skip_layer_norm", {"dtype": "f32", "bias": "pre", "axis_pos": True}, "bsd"))
@@ -222,6 +225,7 @@ def _strata():
         S.append(("fused_matmul", {"kind": kind, "rank": 3, "perm_kind": "rotate"}, "none"))
         S.append(("fused_matmul", {"kind": kind, "rank": 3, "perm_kind": "batch"}, "none"))
         S.append(("fused_matmul", {"kind": kind, "rank": 3, "perm_kind": "other"}, "none"))
+        S.append(("fused_matmul", {"kind": kind, "rank": 4, "perm_kind": "swapbatch_last2", "square": True}, "none"))
     for kind in ("tA_t", "tB_t", "mm_t", "tAB"):
         S.append(("fused_matmul", {"kind": kind, "rank": 2, "perm_kind": "last2", "square": True}, "none"))
     for ds in ("one", "oneone", "vec"):
@@ -305,6 +309,9 @@ def build_instance(spec):
         return M.rms_norm(rng, shape=shape, eps=eps, **sw)
     if maker in ("skip_rms", "skip_layer_norm"):
         eps = float(rng.choice([1e-6, 1e-5, 1e-2]))
+        sw = dict(sw)
+        if "eps" in sw:   # a stratum may pin epsilon (None = attribute omitted)
+            eps = sw.pop("eps")
         return getattr(M, maker)(rng, B=sz["B"], S=sz["S"], D=sz["D"], eps=eps, **sw)
     if maker == "rotary_direct":
         E = sz["E"] + (1 if sw.get("odd") else 0)
